@@ -7,6 +7,7 @@ class RefWriter:
         self.data = bytearray()
         self.sanitize = False
         self.ops = 0
+        self.modes = None  # set to a list to log (operation, sanitisation mode) per write
 
     @property
     def string_sanitization_mode(self):
@@ -22,8 +23,13 @@ class RefWriter:
     def to_bytearray(self):
         return bytearray(self.data)
 
+    def _log(self, name):
+        if self.modes is not None:
+            self.modes.append((name, bool(self.sanitize)))
+
     def _int(self, kind, n):
         self.ops += 1
+        self._log("add_" + kind)
         if n >= numbers.LIMIT[kind]:
             raise ValueError("%d does not fit %s" % (n, kind))
         if kind == "byte":
@@ -48,6 +54,7 @@ class RefWriter:
 
     def add_bytes(self, bs):
         self.ops += 1
+        self._log("add_bytes")
         self.data += bytes(bs)
 
     def _img(self, s):
@@ -58,10 +65,12 @@ class RefWriter:
 
     def add_string(self, s):
         self.ops += 1
+        self._log("add_string")
         self.data += self._img(s)
 
     def add_encoded_string(self, s):
         self.ops += 1
+        self._log("add_encoded_string")
         self.data += strings.encode(self._img(s))
 
     @staticmethod
@@ -74,6 +83,7 @@ class RefWriter:
 
     def add_fixed_string(self, s, length, padded=False):
         self.ops += 1
+        self._log("add_fixed_string")
         self._check(s, length, padded)
         b = self._img(s)
         if padded:
@@ -82,6 +92,7 @@ class RefWriter:
 
     def add_fixed_encoded_string(self, s, length, padded=False):
         self.ops += 1
+        self._log("add_fixed_encoded_string")
         self._check(s, length, padded)
         b = self._img(s)
         if padded:
